@@ -150,6 +150,13 @@ theorem call_after_any_history (k : Cfg) (i : Nat) (before during : Trace) (σ :
   schedule_independent k i during (finalState σ before) σ hd (lazy_final k before σ hb hl)
     (final_agree k before σ σ hb hl (agree_refl k σ)) (coherent_final k before σ hb hco) hco
 
+/-- … and nothing that runs after a clean history races: a long-lived process with warm caches is as race-free as a
+    fresh one (no hypothesis on what the history did beyond its being clean). -/
+theorem race_free_after_history (k : Cfg) (before during : Trace) (σ : State)
+    (hb : CleanTrace k before) (hd : CleanTrace k during) (hl : LazyInit k σ) :
+    ¬ RaceIn (events (finalState σ before) during) :=
+  race_free k (finalState σ before) during hd (lazy_final k before σ hb hl)
+
 /-- … so the observations of a thread over a whole execution split call by call: what it saw during the history,
     then what the later calls observe on a fresh document. -/
 theorem later_calls_observe_fresh_document (k : Cfg) (i : Nat) (before during : Trace) (σ : State)
